@@ -684,6 +684,67 @@ def _check_get_functions(repo, rep, mod):
                    loc=mod.loc(e), construct=model.norm(e))
 
 
+SHRINKERS = ('discard', 'remove', 'pop', 'clear', 'popitem',
+             'difference_update', 'intersection_update',
+             'symmetric_difference_update')
+
+
+def check_registration_only_adds(repo, rep, mod):
+    """R17j: register_function adds one definition to the layer's table and
+    nothing else: whatever was registered in the layer before is still
+    there afterwards (overloads of one name accumulate; only
+    delete_function removes).  A registration that drops or replaces earlier
+    overloads makes what a layer contributes depend on what else was
+    registered, and `delete` of the new one does not bring the old one
+    back."""
+    n = 0
+    for ci in mod.classes.values():
+        m = ci.methods.get('register_function')
+        if m is None:
+            continue
+        slf = m.params()[0]
+        tables = {a.attr for a in ast.walk(m.node)
+                  if isinstance(a, ast.Attribute) and isinstance(
+                      a.value, ast.Name) and a.value.id == slf and
+                  'func' in a.attr}
+        if not tables:
+            continue
+        n += 1
+
+        def from_table(e):
+            e = norm.subst_locals(m.node, e, only_pure=False)
+            return any(isinstance(x, ast.Attribute) and isinstance(
+                x.value, ast.Name) and x.value.id == slf and
+                x.attr in tables for x in ast.walk(e))
+        bad = []
+        for x in ast.walk(m.node):
+            if isinstance(x, ast.Call) and isinstance(
+                    x.func, ast.Attribute) and x.func.attr in SHRINKERS \
+                    and from_table(x.func.value):
+                bad.append(x)
+            elif isinstance(x, ast.Delete) and any(
+                    isinstance(t, ast.Subscript) and from_table(t.value)
+                    for t in x.targets):
+                bad.append(x)
+            elif isinstance(x, ast.Assign) and any(
+                    isinstance(t, ast.Subscript) and from_table(t.value)
+                    for t in x.targets) and not from_table(x.value) and \
+                    not isinstance(x.value, ast.Constant):
+                bad.append(x)     # table[name] = {spec}: replaces the set
+            elif isinstance(x, ast.AugAssign) and isinstance(
+                    x.op, (ast.Sub, ast.BitAnd, ast.BitXor)) and \
+                    from_table(x.target):
+                bad.append(x)
+        rep.ob('R17j', m.key + '/only-adds', not bad,
+               '%s.register_function must only add the new definition to '
+               'the layer; `%s` removes or replaces definitions registered '
+               'earlier' % (ci.node.name, model.norm(bad[0]).split(
+                   '\n')[0][:90] if bad else ''),
+               loc=mod.loc(bad[0] if bad else m.node),
+               construct=model.norm(bad[0])[:120] if bad else '')
+    rep.floor('register_function implementations with a table', n, 1)
+
+
 def check_writes(repo, rep, mod):
     want = {'Context': ('self._data', 'self._functions',
                         'self._exclusive_funcs'),
@@ -996,6 +1057,70 @@ def _multi_parent_by_evaluation(repo, mod, ci, init, plist, attr):
     return True
 
 
+def _linked_chain_by_evaluation(repo, mod, lc):
+    """LinkedContext(host, linked) constructed abstractly for linked chains
+    of one to three layers, with every way in which an ancestor of the
+    linked context can be the very object that is the host or one of its
+    ancestors: walking .parent from the result must show the linked layers
+    one by one, nearest first, and then the host -- whatever is shared.
+    None when the constructor is outside the evaluator's fragment."""
+    from sa import absint
+    for depth in (1, 2, 3):
+        for share in [None] + [(i, j) for i in range(1, depth)
+                               for j in range(2)]:
+            conv = absint.Sym('convention')
+            hosts = [None, None]
+            hosts[1] = absint.Obj('host-parent', parent=None,
+                                  convention=conv)
+            hosts[0] = absint.Obj('host', parent=hosts[1], convention=conv)
+            linked = [None] * depth
+            parent = None
+            for i in range(depth - 1, -1, -1):
+                if share is not None and share[0] == i:
+                    linked[i] = hosts[share[1]]
+                    # what is above a shared layer is the host's chain
+                else:
+                    linked[i] = absint.Obj('linked-%d' % i, parent=parent,
+                                           convention=conv)
+                parent = linked[i]
+            # layers of the linked chain from the linked context outward
+            want = []
+            cur = linked[0]
+            while cur is not None:
+                want.append(cur)
+                cur = cur.attrs.get('parent')
+            it = absint.Interp(repo, mod)
+            try:
+                res = it.invoke(('global', lc.dotted),
+                                [hosts[0], linked[0]], {})
+                got = []
+                cur = res
+                steps = 0
+                while isinstance(cur, absint.Obj) and cur.attrs.get(
+                        '__class__') is lc and steps < 10:
+                    got.append(it.ev(ast.parse('x.linked_context',
+                                               mode='eval').body,
+                                     {'x': cur}))
+                    cur = it.ev(ast.parse('x.parent', mode='eval').body,
+                                {'x': cur})
+                    steps += 1
+            except (absint.Unsupported, absint._Raise, RecursionError,
+                    TypeError):
+                return None
+            what = 'a linked chain of %d layer(s)%s' % (
+                depth, '' if share is None else
+                ' whose layer %d is the host%s' % (
+                    share[0], '' if share[1] == 0 else '\'s parent'))
+            if len(got) != len(want) or any(
+                    a is not b for a, b in zip(got, want)):
+                return False, 'for %s the result shows the layers %r ' \
+                    'before the host chain, expected %r' % (what, got, want)
+            if cur is not hosts[0]:
+                return False, 'for %s the linked layers are followed by ' \
+                    '%r, not by the host' % (what, cur)
+    return True, ''
+
+
 def check_multi(repo, rep, mod):
     ci = mod.cls('MultiContext')
     init = ci.methods['__init__']
@@ -1097,6 +1222,14 @@ def check_multi(repo, rep, mod):
            'several)', loc=mod.loc(init.node))
     # LinkedContext: proxy to the linked context, own parent chain rebuilt
     lc = mod.cls('LinkedContext')
+    verdict = _linked_chain_by_evaluation(repo, mod, lc)
+    if verdict is not None:
+        rep.ob('R17f', lc.key + '/linked-layers-then-host', verdict[0],
+               'a linked context shows every layer of the linked chain, '
+               'nearest first, and then the host chain: ' + verdict[1] +
+               ' -- a layer both chains share is otherwise seen after the '
+               'host\'s own layers instead of before them',
+               loc=mod.loc(lc.node))
     init = lc.methods['__init__']
     ps = init.params()
     p_parent, p_linked = ps[1], ps[2]
@@ -1166,6 +1299,9 @@ def run(repo, rep):
     check_get_data(repo, rep, mod)
     check_collect(repo, rep, mod)
     check_writes(repo, rep, mod)
+    rep.rule('R17j', 'REGISTRATION-ONLY-ADDS: register_function removes or '
+             'replaces nothing that was registered in the layer before')
+    check_registration_only_adds(repo, rep, mod)
     check_store_on_all_paths(repo, rep, mod)
     check_reads_are_pure(repo, rep, mod)
     check_multi(repo, rep, mod)
